@@ -54,9 +54,9 @@ End Eq.
 Arguments e_cur {V}. Arguments e_na {V}. Arguments e_nc {V}.
 Arguments EAbout {V}. Arguments EChanged {V}. Arguments EW {V}. Arguments EWCur {V}. Arguments EObs {V}.
 
-(* the equality relations of the six types the harness instantiates Property<T> with; values are integers,
+(* the equality relations of the seven types the harness instantiates Property<T> with; values are integers,
    a negative value of flavour FNan stands for a NaN *)
-Inductive flavour := FInt | FMod | FNan | FNever | FNoEq | FLoose.
+Inductive flavour := FInt | FMod | FNan | FNever | FNoEq | FLoose | FText.
 Definition eqv_of (f : flavour) (a b : Z) : bool :=
   match f with
   | FInt => Z.eqb a b                                        (* int, operator== *)
@@ -66,6 +66,8 @@ Definition eqv_of (f : flavour) (a b : Z) : bool :=
   | FNoEq => false                                           (* no operator==, no specialisation: the library's fallback *)
   | FLoose => Z.eqb a b                                      (* a class whose operator== is NOT declared noexcept (like std::string's
                                                                 before C++20, or most user types): still operator== *)
+  | FText => Z.eqb a b                                       (* std::string holding a long text (heap storage): a moved-from value is visibly
+                                                                different from the value it had *)
   end.
 
 Definition erun_f (f : flavour) (init : Z) (na nc : nat) (ops : list (eop Z)) : est Z * list (list (eev Z)) :=
